@@ -252,6 +252,7 @@ def check_draw_probabilities(ck, case, where, pre_T, pre_V, kind, draws):
         return
     k = target_double(len(arr)) / float(wsum)
     order = partition_visit_order(len(arr), [int(d[1]) for d in ds])
+    ck.coverage["boolean_draw_probabilities_compared"] = ck.coverage.get("boolean_draw_probabilities_compared", 0) + len(order)
     import struct
     for j, i in enumerate(order):
         p = min(float(ws[i]) * k, 1.0)
@@ -268,8 +269,11 @@ def run_direct(ck, cases, houts, crashes, model, base):
     for idx, (c, out) in enumerate(zip(cases, houts)):
         ck.count()
 
-        def bad(key, what, c=c, out=out):
-            ck.add_violation(key, what, {"cases": [c], "impl": (out or "")[:4000]})
+        pos = [len(c["ops"])]
+
+        def bad(key, what, c=c, out=out, pos=pos):
+            # shrunk replay: the history is cut after the failing call
+            ck.add_violation(key, what, {"cases": [dict(c, ops=c["ops"][:pos[0]])], "impl": (out or "")[:4000]})
         if out is None or out.startswith("CRASH"):
             bad("direct:sanitizer", "sanitizer report / abort while driving %s" % harness_line(c)[:200])
             ck.violations[-1]["replay"]["sanitizer"] = crashes.get(base + idx, "")[-2000:]
@@ -287,8 +291,9 @@ def run_direct(ck, cases, houts, crashes, model, base):
         clr = (0, 0)
         toks = []
         moved = False
-        for o in obs:
+        for k_op, o in enumerate(obs):
             op, ret, ct, cv, draws, Ts, Vs = o
+            pos[0] = k_op + 1
             T1, V1 = parse_set(Ts), parse_set(Vs)
             where = "%s after %s" % (harness_line(c)[:60], op)
             kind, arg = op[:2], op.split(":")[1]
@@ -322,6 +327,7 @@ def run_direct(ck, cases, houts, crashes, model, base):
             if [e[0] for e in T1] != [e[0] for e in cur[0]]:
                 moved = True
             cur, clr = (T1, V1), c1
+        pos[0] = len(c["ops"])
         if moved:
             ck.nontriv(harness_line(c))
         mlines.append("M %d %d %s %s %s" % (c["perc"], c["gap"], T0s, V0s, " ".join(toks)))
@@ -523,6 +529,8 @@ def run(ck):
     vv.build_lib("asan")
     res = vv.prove("Properties_C16", vv.FLOCQ_AXIOMS)
     ck.add_proof(res)
+    # what is false of the pinned tree's model (the typeid finding), kept as machine-checked witnesses
+    ck.add_proof(vv.prove("Refuted_C16", set()))
     ck.trusted += ["extraction: ExtrOcamlBasic only, no Extract Constant; ocaml/valid_driver.ml + zutil.ml",
                    "harness/h_valid.cc (dump format, attribution of logged draws to calls); hook H1 (draw sink)",
                    "g++ 12 ASan/UBSan as the detector of executed undefined behaviour"]
@@ -563,10 +571,9 @@ def run(ck):
         rc, mq, _ = vv.run_lines(model, "\n".join("Q %d" % s for s in tsizes) + "\n")
         for s, ho, mo in zip(tsizes, hout[nd_ + ns_:], mq):
             ck.count()
-            if s >= 2:
-                ck.nontriv(("target", s))
             want = "OK %d" % int(target_double(s))
-            if ho != want or (s >= 1 and mo != want):
+            wantm = "OK %d %d" % (target_q(s), int(target_double(s)))
+            if ho != want or (s >= 1 and mo != wantm):
                 ck.add_diff({"target_size_of": s}, mo, ho, what="static_cast<ptrdiff_t>(target_size)")
             if s >= 2 and ho is not None and ho.startswith("OK") and not (1 <= int(ho.split()[1]) < s):
                 ck.add_violation("dss:target-size", "target_size for %d examples is %s: the fallback split leaves a set "
